@@ -29,7 +29,8 @@ TYPE_OF_CHAR = {'%': 'INTEGER', '&': 'LONG', '!': 'SINGLE', '#': 'DOUBLE',
 class SafetyMonitor:
     """C03 oracle A.  Collects violations (kind, detail) without stopping."""
 
-    def __init__(self, module, check_depth=True):
+    def __init__(self, module, check_depth=True, through_errors=False):
+        self.through_errors = through_errors
         self.module = module
         self.instrs = D.decode(module.code)
         self.at = {i.addr: i for i in self.instrs}
@@ -107,7 +108,7 @@ class SafetyMonitor:
                           found=cell.type.name)
         if self.check_depth and not self.disabled_depth and \
                 pc in self.stmt_starts and cpu.cur_frame is not None and \
-                op != 'frame':
+                op != 'frame' and not cpu.error_handler_active:
             fb = self.frame_base.get(id(cpu.cur_frame))
             if fb is not None and len(cpu.stack) != fb[0] + fb[1]:
                 self.flag('stack_depth_at_statement', addr=pc,
@@ -151,8 +152,10 @@ class SafetyMonitor:
             fb = self.frame_base.get(id(cpu.cur_frame))
             if fb is not None:
                 fb[1] -= 1
-        elif op in ('errres', 'errresn', 'errhand'):
-            # error handling rewinds control without unwinding; C10 judges it
+        elif op in ('errres', 'errresn', 'errhand') and \
+                not self.through_errors:
+            # error handling rewinds control; C10 judges it (with
+            # through_errors=True)
             self.disabled_depth = True
         # cell type constancy for the cells this instruction may have stored
         if op.startswith('store') or op.startswith('read') or \
